@@ -477,6 +477,7 @@ class WireView:
 MUST_CONN_ERROR = {
     "wu-zero-conn", "data-on-zero", "data-on-idle", "data-too-much-padding", "settings-bad-window", "ping-bad-len",
     "rst-on-zero", "stray-continuation", "headers-bad-hpack", "rst-on-idle", "goaway-short",
+    "push-on-half-closed-remote",      # RFC 9113 6.6: PUSH_PROMISE on a stream that is neither open nor half-closed (local)
 }
 
 
@@ -514,15 +515,32 @@ def reaction_oracle(sc):
     consumed = False
     goaway = None
     accepted_after = None
+    free_writes_at_consumption = False
+    free_writes = True            # transport accepts everything (the GOAWAY can reach the wire in the poll that queues it)
     for st in sc["trace"]:
+        if st["op"].get("op") == "write_mode":
+            free_writes = st["op"].get("mode") == "all"
         if st["i"] <= step:
             continue
         if st.get("io", {}).get("inbound") == 0 and st["op"].get("op") in ("conn_poll", "poll_accept"):
+            if not consumed:
+                free_writes_at_consumption = free_writes
+            elif not free_writes:
+                free_writes_at_consumption = False
             consumed = True
         for f in st["out"]:
             if f["t"] == "GOAWAY" and f.get("code", 0) != 0:
                 goaway = (st["i"], f.get("code"))
         o2 = st["op"].get("op")
+        if goaway is None and o2 == "peer" and isinstance(st["op"].get("what"), dict) and \
+                ("chaos" in st["op"]["what"] or st["op"]["what"].get("t") == "GOAWAY"):
+            # the next injected violation (or the peer's own GOAWAY): a GOAWAY written from here on may answer that one, so the
+            # verdict on the first violation is taken now - it was consumed (the connection task read everything it was fed and
+            # went on) without ending the connection, or there is no verdict
+            if consumed and free_writes_at_consumption:
+                return {"step": step, "why": "a connection-level violation was consumed and the connection carried on (no GOAWAY with an "
+                                             "error code before the next injected frame)", "violation": kind, "next_injection_at": st["i"]}
+            return None
         if goaway is None and (o2 in ("eof", "read_fail", "drop_conn", "abrupt_shutdown")
                                or (o2 == "write_mode" and st["op"].get("mode") in ("fail", "zero"))):
             return None      # the script ended the connection before the GOAWAY could reach the wire (throttled writes): no verdict
